@@ -134,16 +134,32 @@ pub fn program<C: CellType>(f: &Form) -> Program<C> {
     }
     let _ = form_at;
     let temps = insts.iter().flat_map(|i| reads(i).into_iter().chain(writes(i))).map(|t| t + 1).max().unwrap_or(0);
-    Program { temps, min_accessed: 0, max_accessed: NCELLS as isize - 1, live, insts }
+    let (lo, hi) = window(f);
+    Program { temps, min_accessed: lo, max_accessed: hi, live, insts }
+}
+
+/// The access window of a form's program: cells 0..NCELLS, widened to the form's own tape
+/// operands (the displacement-boundary family uses offsets up to ±(128/size + 1)).
+pub fn window(f: &Form) -> (isize, isize) {
+    let mut lo = 0isize;
+    let mut hi = NCELLS as isize - 1;
+    for k in [Some(f.dst), Some(f.a), f.b].into_iter().flatten() {
+        if let K::Mem(m) = k {
+            lo = lo.min(m);
+            hi = hi.max(m);
+        }
+    }
+    (lo, hi)
 }
 
 /// Reference semantics of the same bytecode over terms.
 fn reference<C: CellType>(p: &Program<C>, w: u8, cells: &[T]) -> Vec<T> {
     let mut tape = cells.to_vec();
-    let mut temps: Vec<T> = (0..16).map(|_| with(|c| c.ar.fresh(w))).collect();
+    let lo = p.min_accessed;
+    let mut temps: Vec<T> = (0..24).map(|_| with(|c| c.ar.fresh(w))).collect();
     let rd = |l: &Loc<C>, tape: &Vec<T>, temps: &Vec<T>| -> T {
         match l {
-            Loc::Mem(m) | Loc::MemZero(m) => tape[*m as usize],
+            Loc::Mem(m) | Loc::MemZero(m) => tape[(*m - lo) as usize],
             Loc::Tmp(t) => temps[*t],
             Loc::Imm(c) => with(|cx| cx.ar.konst(w, c.into_u64())),
         }
@@ -166,7 +182,7 @@ fn reference<C: CellType>(p: &Program<C>, w: u8, cells: &[T]) -> Vec<T> {
             _ => continue,
         };
         match d {
-            Loc::Mem(m) | Loc::MemZero(m) => tape[m as usize] = v,
+            Loc::Mem(m) | Loc::MemZero(m) => tape[(m - lo) as usize] = v,
             Loc::Tmp(t) => temps[t] = v,
             Loc::Imm(_) => {}
         }
@@ -201,28 +217,29 @@ fn check_form<C: CellType>(f: &Form) -> Verdict {
         c.job_deadline = None;
     });
     let ex = explore(|| {
-        let cells: Vec<T> = (0..NCELLS).map(|i| with(|c| c.ar.var(w, 500 + i as u32))).collect();
-        let fin = x86env::run_window::<C>(&code, entry, &cells, 10_000);
+        let ncells = (p.max_accessed - p.min_accessed + 1) as usize;
+        let cells: Vec<T> = (0..ncells).map(|i| with(|c| c.ar.var(w, 500 + i as u32))).collect();
+        let fin = x86env::run_window_at::<C>(&code, entry, p.min_accessed, &cells, 10_000);
         let fin = match fin {
             Ok(v) => v,
             Err(e) => return Verdict::Fails(format!("x86 model: {}", e), vec![]),
         };
         let exp = reference::<C>(&p, w, &cells);
-        for i in 0..NCELLS {
+        for i in 0..ncells {
             if fin[i] == exp[i] {
                 continue;
             }
             let l = with(|c| c.ar.eq_lit(w, fin[i], exp[i]));
             match l {
                 Err(true) => {}
-                Err(false) => return Verdict::Fails(format!("tape cell {} differs (constant)", i), vec![0; NCELLS]),
+                Err(false) => return Verdict::Fails(format!("tape cell {} differs (constant)", i as isize + p.min_accessed), vec![0; ncells]),
                 Ok(l) => {
                     let mut m = Witness::default();
                     match feasible(&[l.not()], Some(&mut m)) {
                         Answer::Unsat => {}
                         Answer::Sat => {
-                            let vals: Vec<u64> = (0..NCELLS).map(|k| m.vars.get(&(500 + k as u32)).copied().unwrap_or(0) & mask(w)).collect();
-                            return Verdict::Fails(format!("tape cell {} can differ from the bytecode semantics", i), vals);
+                            let vals: Vec<u64> = (0..ncells).map(|k| m.vars.get(&(500 + k as u32)).copied().unwrap_or(0) & mask(w)).collect();
+                            return Verdict::Fails(format!("tape cell {} can differ from the bytecode semantics", i as isize + p.min_accessed), vals);
                         }
                         Answer::Unknown(s) => return Verdict::Undecided(s),
                     }
@@ -246,9 +263,9 @@ fn confirm_native<C: CellType>(f: &Form, vals: &[u64]) -> Option<String> {
     let mk = || Program::<C> { temps: p.temps, min_accessed: p.min_accessed, max_accessed: p.max_accessed, live: p.live.clone(), insts: p.insts.clone() };
     let run = |jit: bool| -> Vec<u64> {
         let mut cxt = Context::<C>::without_io();
-        cxt.memory.make_accessible(0, NCELLS as isize);
+        cxt.memory.make_accessible(p.min_accessed, p.max_accessed + 1);
         for (i, v) in vals.iter().enumerate() {
-            cxt.memory.write(i as isize, C::from_u64(*v));
+            cxt.memory.write(p.min_accessed + i as isize, C::from_u64(*v));
         }
         if jit {
             let e = BaseJitCompiler::<C>::verif_from_bytecode(mk());
@@ -257,7 +274,7 @@ fn confirm_native<C: CellType>(f: &Form, vals: &[u64]) -> Option<String> {
             let e = BcInterpreter::<C>::verif_from_bytecode(mk());
             let _ = e.execute(&mut cxt);
         }
-        (0..NCELLS).map(|i| cxt.memory.read(i as isize).into_u64()).collect()
+        (0..vals.len()).map(|i| cxt.memory.read(p.min_accessed + i as isize).into_u64()).collect()
     };
     let a = run(true);
     let b = run(false);
@@ -305,6 +322,54 @@ pub fn forms(imm_classes: &[i64]) -> Vec<Form> {
     out
 }
 
+/// Displacement-boundary family: the encoder picks an 8-bit or a 32-bit displacement per
+/// memory operand, so tape operands whose *byte* displacement is 128 - size, 128, 128 + size
+/// (and the negatives) and stack temporaries at [rsp+120], [rsp+128], [rsp+136] (indices 15,
+/// 16, 17) are put through the same lemma (machine code of the form == bytecode semantics,
+/// all cells of the window symbolic).  `forms` keeps to offsets 0..2 and temporaries <= 13,
+/// which never leave the 8-bit range.
+pub fn disp_forms(cell_bytes: isize) -> Vec<Form> {
+    let mut out = Vec::new();
+    let e = 128 / cell_bytes;
+    let mut offs: Vec<isize> = Vec::new();
+    for m in [e - 1, e, e + 1] {
+        offs.push(m);
+        offs.push(-m);
+    }
+    for &m in &offs {
+        for all_live in [false, true] {
+            out.push(Form { op: OpK::Copy, dst: K::Mem(m), a: K::Imm(5), b: None, all_live });
+            out.push(Form { op: OpK::Copy, dst: K::Mem(m), a: K::Mem(-m), b: None, all_live });
+            out.push(Form { op: OpK::Copy, dst: K::Mem(m), a: K::Tmp(1), b: None, all_live });
+            out.push(Form { op: OpK::Copy, dst: K::Tmp(0), a: K::Mem(m), b: None, all_live });
+            out.push(Form { op: OpK::Copy, dst: K::Tmp(11), a: K::Mem(m), b: None, all_live });
+            for op in [OpK::Add, OpK::Sub, OpK::Mul] {
+                out.push(Form { op, dst: K::Mem(m), a: K::Mem(-m), b: Some(K::Mem(1)), all_live });
+                out.push(Form { op, dst: K::Mem(m), a: K::Mem(m), b: Some(K::Imm(3)), all_live });
+                out.push(Form { op, dst: K::Mem(0), a: K::Mem(m), b: Some(K::Tmp(1)), all_live });
+                out.push(Form { op, dst: K::Mem(0), a: K::Tmp(5), b: Some(K::Mem(m)), all_live });
+                out.push(Form { op, dst: K::Tmp(0), a: K::Mem(m), b: Some(K::Mem(-m)), all_live });
+                out.push(Form { op, dst: K::Tmp(12), a: K::Mem(-m), b: Some(K::Mem(m)), all_live });
+            }
+        }
+    }
+    for t in [15usize, 16, 17] {
+        for all_live in [false, true] {
+            out.push(Form { op: OpK::Copy, dst: K::Tmp(t), a: K::Mem(1), b: None, all_live });
+            out.push(Form { op: OpK::Copy, dst: K::Tmp(t), a: K::Imm(7), b: None, all_live });
+            out.push(Form { op: OpK::Copy, dst: K::Mem(0), a: K::Tmp(t), b: None, all_live });
+            out.push(Form { op: OpK::Copy, dst: K::Tmp(0), a: K::Tmp(t), b: None, all_live });
+            for op in [OpK::Add, OpK::Sub, OpK::Mul] {
+                out.push(Form { op, dst: K::Tmp(t), a: K::Tmp(1), b: Some(K::Mem(1)), all_live });
+                out.push(Form { op, dst: K::Mem(0), a: K::Tmp(t), b: Some(K::Tmp(2)), all_live });
+                out.push(Form { op, dst: K::Tmp(0), a: K::Mem(1), b: Some(K::Tmp(t)), all_live });
+                out.push(Form { op, dst: K::Tmp(t), a: K::Tmp(t), b: Some(K::Imm(3)), all_live });
+            }
+        }
+    }
+    out
+}
+
 pub fn imm_classes(w: u32) -> Vec<i64> {
     let all: [i64; 15] = [0, 1, -1, 127, 128, -128, -129, i32::MAX as i64, i32::MAX as i64 + 1, i32::MIN as i64, i32::MIN as i64 - 1, u32::MAX as i64, u32::MAX as i64 + 1, i64::MAX, i64::MIN];
     let m = mask(w as u8);
@@ -330,9 +395,12 @@ pub struct Out {
 }
 
 fn run_width<C: CellType>(out: &mut Out, deadline: std::time::Instant, stride: usize, offset: usize) {
-    let fs = forms(&imm_classes(C::BITS));
+    let ds = disp_forms((C::BITS / 8) as isize);
+    let nd = ds.len();
+    let mut fs = ds;
+    fs.extend(forms(&imm_classes(C::BITS)));
     for (i, f) in fs.iter().enumerate() {
-        if i % stride != offset {
+        if i >= nd && (i - nd) % stride != offset {
             continue;
         }
         if std::time::Instant::now() > deadline {
@@ -481,7 +549,9 @@ pub fn replay(v: &Value) -> i32 {
     let b = if v["b"].is_null() { None } else { k_from(&v["b"]) };
     let f = Form { op, dst, a, b, all_live: v["all_live"].as_bool().unwrap_or(false) };
     let tape: Vec<u64> = v["tape"].as_array().map(|a| a.iter().map(|x| x.as_u64().unwrap_or(0)).collect()).unwrap_or_default();
-    let tape = if tape.len() == NCELLS { tape } else { vec![0; NCELLS] };
+    let (wlo, whi) = window(&f);
+    let n = (whi - wlo + 1) as usize;
+    let tape = if tape.len() == n { tape } else { vec![0; n] };
     let r = match v["width"].as_u64().unwrap_or(8) {
         8 => confirm_native::<u8>(&f, &tape),
         16 => confirm_native::<u16>(&f, &tape),
